@@ -11,16 +11,31 @@ C14 — Dependence functions are fitted within bounds, optimally, in dependency 
    independent of that order (within optimiser tolerance)."
 
 Clause → theorem                                   (model: Model/DepProtocol.lean, Model/DepFit.lean)
-  declaration order is a dependency order           declaration_is_topological
+  declaration order is a dependency order           ASSUMED (Python can only bind existing objects); the driver's
+                                                    test of it is the hypothesis `WF`: checkDecls_iff_WF (definitional)
   the callback recursion terminates                 callbacks_terminate
   fitted after all conditioners, ANY history        no_stale_after_any_history  (versions),
     (any declaration order, any order/multiplicity  final_fit_after_conditioners (event log),
      of fit calls, any data epochs, re-fit)         version_eq_count_log
   everything called ⇒ everything fitted             all_called_all_fitted
-  both together (⇒ order independence: the final    final_state_consistent
-    fits happen in a dependency-compatible order)
+  both together (versions only; says nothing about  final_state_consistent
+    results: see the next three rows)
+  RESULTS (`results` = replay of the event log with an ARBITRARY deterministic `fitRes f data p0
+  (conditioners' current parameters)`, = the ghost field `bump` would update: results_bump):
+  after ANY history a fitted function has the fit   results_consistent_after_any_history
+    of its stored pairs given its conditioners'
+    CURRENT parameters
+  a complete round of epoch r (any order, after     results_after_complete_round  (`canon` = dependency-order
+    any earlier history) leaves every function with   fit: canon_spec, canon_unique)
+    the dependency-order fit of the epoch-r pairs
+  ⇒ ORDER INDEPENDENCE: two histories ending with   fit_order_independent, first_fit_order_independent
+    complete rounds of the same data, in different
+    orders / after different pre-histories, give
+    the same parameters for every function
   intermediate fit may see an unfitted conditioner  intermediate_fit_may_see_unfitted_conditioner (witness)
-  the `issubset` test of `callback` never fails     callback_true
+  the `issubset` test of `callback` never fails     callback_true (one step, given FcSub), fcSub_after_any_history
+                                                    (FcSub holds in every reachable state),
+                                                    callback_true_after_any_history (composed)
   INPUTS of every `_fit` (a history is a list of public calls `(function, data epoch)`):
   stored x/y = pairs of the latest public call      stored_data_is_latest_call
                                                     (latestCall_eq_some_iff / _eq_none_iff pin the spec down)
@@ -35,14 +50,21 @@ Clause → theorem                                   (model: Model/DepProtocol.l
     captured at the first `_fit` = the constructor's
     values, never an earlier result
   detailed log refines the plain log                evlog_refines_log
-  seeded variant "store x/y only when deferred"     stale_variant_refits_old_pairs (by decide, on
+  seeded variant "store x/y only when deferred"     stale_variant_refits_old_pairs (COUNTER-MODEL, by decide, on
     violates the re-fit statement                     `fitCallStale`, which is NOT the code)
-  bounds handed to curve_fit = declared bounds      convertBounds_spec, convertBounds_length
-  declared constraints reach the optimiser          constraints_reach_optimiser, unconstrained_uses_curve_fit,
-                                                    constrained_weighted_refused;
-                                                    constraints_dropped_counterexample (code before the repair)
+  bounds handed to curve_fit = declared bounds      convertBounds_spec (over a Preorder; the driver runs it at Float, see
+                                                    the docstring), convertBounds_length
+  declared constraints reach the optimiser          DEFINITIONAL unfoldings of the model `dispatch` (no content beyond
+                                                    the model; the tie to the code is the correspondence check):
+                                                    constraints_reach_optimiser_def, unconstrained_uses_curve_fit_def,
+                                                    constrained_weighted_refused_def, dispatch_cases_def;
+                                                    constraints_dropped_counterexample (COUNTER-MODEL `dispatchOld`:
+                                                    the code before the repair)
   linear shapes: solution of the normal equations   normal_equations_minimise, isNormalSolution_sound,
-    minimises / is unique                           normal_equations_unique, affineLsq_normal, affineLsq_minimises
+    minimises / is unique                           normal_equations_unique (rank + positive weights as hypotheses;
+                                                    discharged for a + b x: affine_full_rank, affineLsq_unique;
+                                                    weights the driver builds are positive: sigmaWeight_pos),
+                                                    affineLsq_normal, affineLsq_minimises
 
 NOT theorems (observed on the real code by the harness on every explored case, see claims/C14.json):
   `optimality_partial`: that curve_fit / SLSQP actually return parameters inside the bounds,
@@ -201,6 +223,46 @@ theorem doFit_fcSub (N : Nat) (conds : Nat → List Nat) :
           exact ihds _ (fun k hk => hds k (by simp [hk])) (allow_fcSub ht hd)
     exact loop _ _ (fun d hd => (mem_dependents.mp hd).2) hs
 
+/-- the state in which `fit` has stored the pairs but not yet fitted -/
+def store (s : Mut) (f e : Nat) : Mut :=
+  { s with xyEpoch := upd s.xyEpoch f (some e), calls := s.calls + 1 }
+
+theorem fitCall_eq (N : Nat) (conds : Nat → List Nat) (f e : Nat) (s : Mut) :
+    fitCall N conds f e s =
+      if s.mayFit f = true then doFit N conds N f e (store s f e) else store s f e := rfl
+
+/-- the hypothesis `FcSub` of `callback_true` holds in EVERY reachable top-level state (any
+declaration, any history; no well-formedness needed) -/
+theorem fcSub_after_any_history (N : Nat) (conds : Nat → List Nat) (ops : List (Nat × Nat)) :
+    FcSub conds (runHistory N conds ops) := by
+  unfold runHistory
+  suffices H : ∀ (ops : List (Nat × Nat)) (s : Mut), FcSub conds s →
+      FcSub conds (ops.foldl (fun s p => fitCall N conds p.1 p.2 s) s) from
+    H ops _ (fun h g hg => by simp [init] at hg)
+  intro ops
+  induction ops with
+  | nil => intro s h; exact h
+  | cons p ops ih =>
+    intro s hs
+    apply ih
+    show FcSub conds (fitCall N conds p.1 p.2 s)
+    rw [fitCall_eq]
+    have h1 : FcSub conds (store s p.1 p.2) := hs
+    split
+    · exact doFit_fcSub N conds N p.1 p.2 _ h1
+    · exact h1
+
+/-- **the `issubset` test never fails, in any reachable state**: the callbacks of the NEXT cascade
+after any history (started on a reachable state, then kept by `doFit_fcSub` through the cascade)
+always take the "may fit" branch. -/
+theorem callback_true_after_any_history (N : Nat) (conds : Nat → List Nat)
+    (ops : List (Nat × Nat)) (refit : Nat → Nat → Mut → Mut) (f h : Nat) (hf : f ∈ conds h) :
+    callback conds refit f (runHistory N conds ops) h =
+      match (runHistory N conds ops).xyEpoch h with
+      | some e => refit h e (allow (runHistory N conds ops) f h)
+      | none => allow (runHistory N conds ops) f h :=
+  callback_true conds refit f _ h (fcSub_after_any_history N conds ops) hf
+
 /-! ### a generic preservation principle for the cascade
 
 Everything a `_fit` cascade does is: `bump` (always on a function whose pairs are stored, on
@@ -358,14 +420,6 @@ theorem doFit_spec (N : Nat) (conds : Nat → List Nat) (wf : WF conds) :
 /-- the three invariants of a top-level state -/
 def Inv (N : Nat) (conds : Nat → List Nat) (s : Mut) : Prop :=
   Good s ∧ FcSub conds s ∧ NoStale N conds s
-
-/-- the state in which `fit` has stored the pairs but not yet fitted -/
-def store (s : Mut) (f e : Nat) : Mut :=
-  { s with xyEpoch := upd s.xyEpoch f (some e), calls := s.calls + 1 }
-
-theorem fitCall_eq (N : Nat) (conds : Nat → List Nat) (f e : Nat) (s : Mut) :
-    fitCall N conds f e s =
-      if s.mayFit f = true then doFit N conds N f e (store s f e) else store s f e := rfl
 
 theorem store_hasXY_self (s : Mut) (f e : Nat) : (store s f e).hasXY f = true :=
   hasXY_some (s := store s f e) (upd_same _ _ _)
@@ -1769,7 +1823,10 @@ theorem convertBounds_length (ninf pinf : α) (bs : List (Option α × Option α
 
 /-- **`convert_bounds_for_curve_fit`**: the box `[lower_bounds, upper_bounds]` admits exactly the
 parameter vectors the declared bounds admit (parameter `i` gets *its* pair, lower stays lower),
-`ninf`/`pinf` being below/above every parameter value. -/
+`ninf`/`pinf` being below/above every parameter value.
+Stated over a `Preorder`; the driver runs `convertBounds` at `Float` (not a preorder: NaN), where
+the statement applies to the non-NaN values only; the Float output itself is compared bit for bit
+with `convert_bounds_for_curve_fit` by the harness (op `cbounds`). -/
 theorem convertBounds_spec (ninf pinf : α) (bs : List (Option α × Option α)) (p : List α)
     (hinf : ∀ x ∈ p, ninf ≤ x ∧ x ≤ pinf) :
     Admissible bs p ↔
@@ -1798,10 +1855,14 @@ example : convertBounds (-100 : Int) 100 [(some 0, none), (none, some 5)] = ([0,
 section Dispatch
 variable {α : Type}
 
-/-- **constraints reach the optimiser**: when constraints are declared and the dispatch produces an
+/-! The four statements below are DEFINITIONAL: they unfold the model `dispatch` (a two-level
+`match`) and carry no content beyond it.  That `dispatch` is what `_fit` / `fit_function` /
+`fit_constrained_function` do is the correspondence check (recorders around `curve_fit`/`minimize`). -/
+
+/-- (definitional, inversion of `dispatch`) when constraints are declared and the dispatch produces an
 optimiser call, that call is SLSQP started at `p0` with the declared bounds and with exactly the
 declared constraints among its arguments (and no weights were declared). -/
-theorem constraints_reach_optimiser (ninf pinf : α) (spec : DepSpec α) (p0 : List α)
+theorem constraints_reach_optimiser_def (ninf pinf : α) (spec : DepSpec α) (p0 : List α)
     (w : Option (List α)) (cs : List Nat) (call : OptCall α)
     (hc : spec.constraints = some cs) (h : dispatch ninf pinf spec p0 w = .ok call) :
     call = .slsqp p0 spec.bounds cs ∧ w = none := by
@@ -1813,20 +1874,34 @@ theorem constraints_reach_optimiser (ninf pinf : α) (spec : DepSpec α) (p0 : L
     simp only [Except.ok.injEq] at h
     exact ⟨h.symm, rfl⟩
 
-/-- without constraints: `curve_fit` at `p0`, `sigma = weights(x, y)`, converted bounds -/
-theorem unconstrained_uses_curve_fit (ninf pinf : α) (spec : DepSpec α) (p0 : List α)
+/-- (definitional) without constraints: `curve_fit` at `p0`, `sigma = weights(x, y)`, converted bounds -/
+theorem unconstrained_uses_curve_fit_def (ninf pinf : α) (spec : DepSpec α) (p0 : List α)
     (w : Option (List α)) (hc : spec.constraints = none) :
     dispatch ninf pinf spec p0 w =
       .ok (.curveFit p0 w (spec.bounds.map (convertBounds ninf pinf))) := by
   unfold dispatch; rw [hc]
 
-/-- constraints together with a weights callable are refused (`NotImplementedError`) -/
-theorem constrained_weighted_refused (ninf pinf : α) (spec : DepSpec α) (p0 : List α)
+/-- (definitional) constraints together with a weights callable are refused (`NotImplementedError`) -/
+theorem constrained_weighted_refused_def (ninf pinf : α) (spec : DepSpec α) (p0 : List α)
     (v : List α) (cs : List Nat) (hc : spec.constraints = some cs) :
     dispatch ninf pinf spec p0 (some v) = .error .notImplemented := by
   unfold dispatch; rw [hc]
 
-/-- defect #9 (model of the code before the repair): a declared constraint is not among the
+/-- (definitional) complete case analysis of `dispatch` -/
+theorem dispatch_cases_def (ninf pinf : α) (spec : DepSpec α) (p0 : List α) (w : Option (List α))
+    (call : OptCall α) :
+    dispatch ninf pinf spec p0 w = .ok call ↔
+      (spec.constraints = none ∧ call = .curveFit p0 w (spec.bounds.map (convertBounds ninf pinf))) ∨
+      (∃ cs, spec.constraints = some cs ∧ w = none ∧ call = .slsqp p0 spec.bounds cs) := by
+  unfold dispatch
+  cases hc : spec.constraints with
+  | none => simp [eq_comm]
+  | some cs =>
+    cases w with
+    | some v => simp
+    | none => simp [eq_comm]
+
+/-- COUNTER-MODEL, defect #9 (model of the code before the repair): a declared constraint is not among the
 arguments of the optimiser call. -/
 theorem constraints_dropped_counterexample :
     ∃ (spec : DepSpec Int) (p0 : List Int) (cs : List Nat), spec.constraints = some cs ∧ cs ≠ [] ∧
@@ -1937,7 +2012,10 @@ theorem quad_eq_zero (n : Nat) (obs : List (Obs α)) (d : Nat → α) (hw : ∀ 
     · exact ih (fun q hq => hw q (by simp [hq])) h4 p hp
 
 /-- **uniqueness** for a design of full column rank and positive weights: any parameter vector
-with the same (minimal) residual coincides with the solution of the normal equations. -/
+with the same (minimal) residual coincides with the solution of the normal equations.
+`hrank` (full column rank) is a HYPOTHESIS here; it is discharged for the affine design in
+`affine_full_rank` / `affineLsq_unique`; for other linear shapes the harness only uses
+`isNormalSolution_sound` (minimality), not uniqueness.  `0 < o.w`: see `sigmaWeight_pos`. -/
 theorem normal_equations_unique (n : Nat) (obs : List (Obs α)) (x : Nat → α)
     (hw : ∀ o ∈ obs, 0 < o.w) (hne : ∀ j, j < n → grad n obs x j = 0)
     (hrank : ∀ d : Nat → α, (∀ o ∈ obs, dotN n o.row d = 0) → ∀ j, j < n → d j = 0)
@@ -2012,7 +2090,103 @@ theorem affineLsq_minimises (pts : List (WPt α)) (a b : α) (h : affineLsq pts 
   unfold affineObs at ho
   rcases List.mem_map.mp ho with ⟨p, hp, rfl⟩
   exact hw p hp
+omit [LinearOrder α] [IsStrictOrderedRing α] in
+theorem wsumBy_lin (pts : List (WPt α)) (c d : α) (f g : WPt α → α) :
+    wsumBy (fun p => c * f p + d * g p) pts = c * wsumBy f pts + d * wsumBy g pts := by
+  induction pts with
+  | nil => simp [wsumBy]
+  | cons p ps ih => simp only [wsumBy]; rw [ih]; ring
+
+omit [LinearOrder α] [IsStrictOrderedRing α] in
+theorem wsumBy_eq_zero (pts : List (WPt α)) (f : WPt α → α) (h : ∀ p ∈ pts, f p = 0) :
+    wsumBy f pts = 0 := by
+  induction pts with
+  | nil => rfl
+  | cons p ps ih =>
+    simp only [wsumBy]
+    rw [h p (by simp), ih (fun q hq => h q (by simp [hq]))]; ring
+
+omit [LinearOrder α] [IsStrictOrderedRing α] in
+/-- the hypothesis `hrank` of `normal_equations_unique` for the affine design: a non-zero
+determinant of the normal matrix (exactly the guard of `affineLsq`) means full column rank -/
+theorem affine_full_rank (pts : List (WPt α))
+    (hdet : wsumBy (fun _ => 1) pts * wsumBy (fun p => p.x * p.x) pts
+      - wsumBy (fun p => p.x) pts * wsumBy (fun p => p.x) pts ≠ 0)
+    (d : Nat → α) (h : ∀ o ∈ affineObs pts, dotN 2 o.row d = 0) : ∀ j, j < 2 → d j = 0 := by
+  have hp : ∀ p ∈ pts, d 0 + p.x * d 1 = 0 := by
+    intro p hp
+    have := h _ (List.mem_map.mpr ⟨p, hp, rfl⟩)
+    simpa [dotN] using this
+  have e1 : d 0 * wsumBy (fun _ => 1) pts + d 1 * wsumBy (fun p => p.x) pts = 0 := by
+    rw [← wsumBy_lin]
+    apply wsumBy_eq_zero
+    intro p hm; have := hp p hm; linear_combination this
+  have e2 : d 0 * wsumBy (fun p => p.x) pts + d 1 * wsumBy (fun p => p.x * p.x) pts = 0 := by
+    rw [← wsumBy_lin]
+    apply wsumBy_eq_zero
+    intro p hm; have := hp p hm; linear_combination p.x * this
+  have h0 : d 0 = 0 := by
+    have : d 0 * (wsumBy (fun _ => 1) pts * wsumBy (fun p => p.x * p.x) pts
+        - wsumBy (fun p => p.x) pts * wsumBy (fun p => p.x) pts) = 0 := by
+      linear_combination wsumBy (fun p => p.x * p.x) pts * e1 - wsumBy (fun p => p.x) pts * e2
+    rcases mul_eq_zero.mp this with h | h
+    · exact h
+    · exact absurd h hdet
+  have h1 : d 1 = 0 := by
+    have : d 1 * (wsumBy (fun _ => 1) pts * wsumBy (fun p => p.x * p.x) pts
+        - wsumBy (fun p => p.x) pts * wsumBy (fun p => p.x) pts) = 0 := by
+      linear_combination wsumBy (fun _ => 1) pts * e2 - wsumBy (fun p => p.x) pts * e1
+    rcases mul_eq_zero.mp this with h | h
+    · exact h
+    · exact absurd h hdet
+  intro j hj
+  have : j = 0 ∨ j = 1 := by omega
+  rcases this with rfl | rfl
+  · exact h0
+  · exact h1
+
+/-- **affine shapes, uniqueness** (`normal_equations_unique` with its rank hypothesis DISCHARGED):
+whenever the closed form exists and the weights are positive, any `(a', b')` whose weighted
+squared residual is not larger is the closed form itself. -/
+theorem affineLsq_unique (pts : List (WPt α)) (a b : α) (h : affineLsq pts = some (a, b))
+    (hw : ∀ p ∈ pts, 0 < p.w) (a' b' : α)
+    (hle : sse 2 (affineObs pts) (pair a' b') ≤ sse 2 (affineObs pts) (pair a b)) :
+    a' = a ∧ b' = b := by
+  have hdet : wsumBy (fun _ => 1) pts * wsumBy (fun p => p.x * p.x) pts
+      - wsumBy (fun p => p.x) pts * wsumBy (fun p => p.x) pts ≠ 0 := by
+    intro h0
+    unfold affineLsq at h
+    dsimp only at h
+    rw [if_pos h0] at h
+    cases h
+  have hw' : ∀ o ∈ affineObs pts, 0 < o.w := by
+    intro o ho
+    rcases List.mem_map.mp ho with ⟨p, hp, rfl⟩
+    exact hw p hp
+  have := normal_equations_unique 2 (affineObs pts) (pair a b) hw' (affineLsq_normal pts a b h)
+    (affine_full_rank pts hdet) (pair a' b') hle
+  exact ⟨this 0 (by omega), this 1 (by omega)⟩
+
+/-- the weight `curve_fit(sigma = s)` gives to an observation is positive whenever it exists
+(`s ≠ 0`): the hypothesis `0 < o.w` of `normal_equations_unique` holds for what the driver builds
+(`takeObs`/`takeWPts`: weight `1` without sigma, `sigmaWeight s` otherwise). -/
+theorem sigmaWeight_pos [DecidableEq α] (s w : α) (h : sigmaWeight s = some w) : 0 < w := by
+  unfold sigmaWeight at h
+  split at h
+  · cases h
+  · rename_i hs
+    have hw : 1 / (s * s) = w := Option.some.inj h
+    rw [← hw]
+    exact one_div_pos.mpr (mul_self_pos.mpr hs)
 end Affine
+
+-- non-vacuity of `affineLsq_unique` / `affine_full_rank`: the design below has determinant 6 ≠ 0
+example : wsumBy (fun _ => 1) [⟨1, 0, 0⟩, ⟨1, 1, 1⟩, ⟨1, 2, 1⟩] *
+      wsumBy (fun p => p.x * p.x) [⟨1, 0, 0⟩, ⟨1, 1, 1⟩, ⟨(1 : ℚ), 2, 1⟩]
+    - wsumBy (fun p => p.x) [⟨1, 0, 0⟩, ⟨1, 1, 1⟩, ⟨1, 2, 1⟩] *
+      wsumBy (fun p => p.x) [⟨1, 0, 0⟩, ⟨1, 1, 1⟩, ⟨(1 : ℚ), 2, 1⟩] = 6 := by
+  norm_num [wsumBy]
+example : sigmaWeight (2 : ℚ) = some (1 / 4) := by norm_num [sigmaWeight]
 
 -- non-vacuity: three points on no common line, unit weights
 example : affineLsq [⟨1, 0, 0⟩, ⟨1, 1, 1⟩, ⟨1, 2, 1⟩] = some ((1 : ℚ) / 6, 1 / 2) := by
